@@ -10,6 +10,7 @@ RULE_MODULES: Dict[str, str] = {
     "R2": "r02_bound",
     "R3": "r03_protocol",
     "R4": "r04_schedule",
+    "R5": "r05_mintable",
     "R11": "r11_reply",
 }
 
